@@ -30,23 +30,40 @@ theorem absArr_some_iff (a : Arr) (j : Int) (y : Val) :
     · intro h; cases h
     · intro h; exact absurd ⟨h.1, h.2.1⟩ hr
 
+/-- what python's equality sees of the slots -/
+def keysOf (a : Arr) : List (Option Key) := a.cells.map (Option.map Val.key)
+
+theorem absArr_key_iff (a : Arr) (j : Int) (k : Key) :
+    (absArr a j).map Val.key = some k ↔ a.lo ≤ j ∧ j ≤ a.hi ∧ (keysOf a)[(j - a.lo).toNat]? = some (some k) := by
+  unfold absArr keysOf
+  rw [List.getElem?_map]
+  by_cases hr : a.lo ≤ j ∧ j ≤ a.hi
+  · simp only [hr, and_self, if_true, true_and]
+    cases hc : a.cells[(j - a.lo).toNat]? with
+    | none => simp
+    | some c => cases c <;> simp
+  · simp only [hr, if_false]
+    constructor
+    · intro h; simp at h
+    · intro h; exact absurd ⟨h.1, h.2.1⟩ hr
+
 theorem arr_unique_iff (d : Decl) (a : Arr) (h : ArrInv d a) (i : Int) (x : Val) (h1 : a.lo ≤ i) :
-    (∀ j ∈ indices d.lo a.hi, j ≠ i → absArr a j ≠ some x) ↔
-      ¬ (some x ∈ pySliceTo a.cells (i - a.lo) ++ pySliceFrom a.cells (i - a.lo + 1)) := by
-  rw [mem_pySlice_others a.cells (by omega : 0 ≤ i - a.lo), ← h.lo]
+    (∀ j ∈ indices d.lo a.hi, j ≠ i → (absArr a j).map Val.key ≠ some x.key) ↔
+      ¬ (some x.key ∈ pySliceTo (keysOf a) (i - a.lo) ++ pySliceFrom (keysOf a) (i - a.lo + 1)) := by
+  rw [mem_pySlice_others (keysOf a) (by omega : 0 ≤ i - a.lo), ← h.lo]
+  have hlen : (keysOf a).length = (a.hi - a.lo + 1).toNat := by simp [keysOf, h.len]
   constructor
   · rintro hall ⟨m, hm, hget⟩
-    have hmlt : m < a.cells.length := by
-      have := List.getElem?_eq_some_iff.mp hget; exact this.1
-    rw [h.len] at hmlt
+    have hmlt : m < (keysOf a).length := (List.getElem?_eq_some_iff.mp hget).1
+    rw [hlen] at hmlt
     have hj : a.lo + (m : Int) ∈ indices a.lo a.hi := mem_indices.mpr (by omega)
     apply hall _ hj (by omega)
-    rw [absArr_some_iff a]
+    rw [absArr_key_iff a]
     refine ⟨by omega, by omega, ?_⟩
     have : (a.lo + (m : Int) - a.lo).toNat = m := by omega
     rw [this]; exact hget
   · intro hno j hj hne habs
-    rw [absArr_some_iff a] at habs
+    rw [absArr_key_iff a] at habs
     apply hno
     exact ⟨(j - a.lo).toNat, by omega, habs.2.2⟩
 
@@ -96,11 +113,12 @@ theorem arr_set_sim (d : Decl) (a : Arr) (h : ArrInv d a) (i : Int) (x : Val) :
     simp only [h1, h2, h3, if_true, if_false, hn, R.obs, ne_eq, not_false_eq_true]; exact ⟨trivial, h⟩
   have h1' : a.lo ≤ i := by omega
   have h2' : i ≤ a.hi := by omega
-  have h3' : x.ty = a.base := Classical.not_not.mp (fun hne => h3 ((typeMismatch_iff _ _).mpr hne))
+  have h3' : conforms x.ty a.base = true := Classical.not_not.mp (fun hne => h3 ((typeMismatch_iff _ _).mpr hne))
   have huniq := arr_unique_iff d a h i x h1'
+  unfold keysOf at huniq
   have hk : (i - a.lo).toNat < a.cells.length := by rw [h.len]; omega
   have hidx : pyIdx a.cells.length (i - a.lo) = some (i - a.lo).toNat := pyIdx_of_nonneg (by omega) hk
-  by_cases h4 : (a.unique && (pySliceTo a.cells (i - a.lo) ++ pySliceFrom a.cells (i - a.lo + 1)).contains (some x)) = true
+  by_cases h4 : (a.unique && (pySliceTo (a.cells.map (Option.map Val.key)) (i - a.lo) ++ pySliceFrom (a.cells.map (Option.map Val.key)) (i - a.lo + 1)).contains (some x.key)) = true
   · have hn : ¬ arraySetAllowed d a.hi (absArr a) i x := by
       intro hh
       simp only [Bool.and_eq_true, List.contains_iff_mem] at h4
@@ -192,11 +210,13 @@ theorem arr_valueUnique (d : Decl) (a : Arr) (h : ArrInv d a) :
   · simp [hex, hn]
   · have hc : a.cells.contains none = false := by simpa using hn
     simp only [hex, hn, if_false, hc, Bool.false_eq_true]
-    by_cases hd : a.cells.Nodup
-    · have hnp : ¬ ((a.cells.length : Int) - (distinctCount a.cells : Int) > 0) :=
-        fun hp => (size_sub_distinct_pos_iff a.cells).mp hp hd
+    have hl : (a.cells.map (Option.map Val.key)).length = a.cells.length := by simp
+    by_cases hd : (a.cells.map (Option.map Val.key)).Nodup
+    · have hnp : ¬ ((a.cells.length : Int) - (distinctCount (a.cells.map (Option.map Val.key)) : Int) > 0) := by
+        intro hp; rw [← hl] at hp; exact (size_sub_distinct_pos_iff _).mp hp hd
       rw [if_pos hd, if_neg hnp]
-    · have hp := (size_sub_distinct_pos_iff a.cells).mpr hd
+    · have hp := (size_sub_distinct_pos_iff _).mpr hd
+      rw [hl] at hp
       rw [if_neg hd, if_pos hp]
 
 theorem arr_sim (d : Decl) (a : Arr) (h : ArrInv d a) (op : Op) :
@@ -230,11 +250,13 @@ theorem hiBound_obs (x : Option Int) : (hiBound x).obs = ofOptBound x := by
 
 theorem listValueUnique_eq (c : List Val) : listValueUnique c = seqValueUnique c := by
   unfold listValueUnique seqValueUnique
-  by_cases hd : c.Nodup
-  · have hnp : ¬ ((c.length : Int) - (distinctCount c : Int) > 0) :=
-      fun hp => (size_sub_distinct_pos_iff c).mp hp hd
+  have hl : (c.map Val.key).length = c.length := by simp
+  by_cases hd : (c.map Val.key).Nodup
+  · have hnp : ¬ ((c.length : Int) - (distinctCount (c.map Val.key) : Int) > 0) := by
+      intro hp; rw [← hl] at hp; exact (size_sub_distinct_pos_iff _).mp hp hd
     rw [if_pos hd, if_neg hnp]
-  · have hp := (size_sub_distinct_pos_iff c).mpr hd
+  · have hp := (size_sub_distinct_pos_iff _).mpr hd
+    rw [hl] at hp
     rw [if_neg hd, if_pos hp]
 
 theorem lst_full_iff (d : Decl) (l : Lst) (h : LstInv d l) :
@@ -285,7 +307,7 @@ theorem lst_set_sim (d : Decl) (l : Lst) (h : LstInv d l) (i : Int) (x : Val) :
       intro hh; have := hh.2.2.2.1; rw [← h.base] at this; exact (typeMismatch_iff _ _).mp h3 this
     rw [if_pos h3, if_neg hn]; exact ⟨rfl, h⟩
   rw [if_neg h3]
-  have h3' : x.ty = l.base := Classical.not_not.mp (fun hne => h3 ((typeMismatch_iff _ _).mpr hne))
+  have h3' : conforms x.ty l.base = true := Classical.not_not.mp (fun hne => h3 ((typeMismatch_iff _ _).mpr hne))
   have huniq := lst_unique_iff l.cells i x h1a
   by_cases h4 : (l.unique && (pySliceTo l.cells (i - 1) ++ pySliceFrom l.cells i).contains x) = true
   · have hn : ¬ listSetAllowed d l.cells i x := by
@@ -383,7 +405,7 @@ theorem bag_add_sim (d : Decl) (b : Bag) (h : BagInv d b) (x : Val) :
     · have hn : ¬ bagAddAllowed d (sortL b.cells) x := by
         intro hh; have := hh.1; rw [← h.base] at this; exact (typeMismatch_iff _ _).mp h3 this
       rw [if_pos h3, if_neg hn]; exact ⟨rfl, h⟩
-    · have h3' : x.ty = b.base := Classical.not_not.mp (fun hne => h3 ((typeMismatch_iff _ _).mpr hne))
+    · have h3' : conforms x.ty b.base = true := Classical.not_not.mp (fun hne => h3 ((typeMismatch_iff _ _).mpr hne))
       have hy : bagAddAllowed d (sortL b.cells) x := ⟨by rw [← h.base]; exact h3', withinUpper_none hdn _⟩
       rw [if_neg h3, if_pos hy]
       exact ⟨by simp [sortL_append_singleton, R.obs], { h with hi := hdn.symm, upper := withinUpper_none hdn _ }⟩
@@ -410,7 +432,7 @@ theorem bag_add_sim (d : Decl) (b : Bag) (h : BagInv d b) (x : Val) :
     · have hn : ¬ bagAddAllowed d (sortL b.cells) x := by
         intro hh; have := hh.1; rw [← h.base] at this; exact (typeMismatch_iff _ _).mp h3 this
       rw [if_pos h3, if_neg hn]; exact ⟨rfl, h⟩
-    · have h3' : x.ty = b.base := Classical.not_not.mp (fun hne => h3 ((typeMismatch_iff _ _).mpr hne))
+    · have h3' : conforms x.ty b.base = true := Classical.not_not.mp (fun hne => h3 ((typeMismatch_iff _ _).mpr hne))
       have hy : bagAddAllowed d (sortL b.cells) x :=
         ⟨by rw [← h.base]; exact h3', (withinUpper_some hds _).mpr (by rw [length_sortL]; exact hlt)⟩
       rw [if_neg h3, if_pos hy]
@@ -491,7 +513,7 @@ theorem set_add_sim (d : Decl) (s : PSet) (h : SetInv d s) (x : Val) :
   · have hn : ¬ setAddAllowed d (sortL s.cells) x := by
       intro hh; have := hh.1; rw [← h.base] at this; exact (typeMismatch_iff _ _).mp h3 this
     rw [if_pos h3, if_neg hn]; exact ⟨rfl, h⟩
-  have h3' : x.ty = s.base := Classical.not_not.mp (fun hne => h3 ((typeMismatch_iff _ _).mpr hne))
+  have h3' : conforms x.ty s.base = true := Classical.not_not.mp (fun hne => h3 ((typeMismatch_iff _ _).mpr hne))
   rw [if_neg h3]
   cases hb : s.hi with
   | none =>
